@@ -162,7 +162,7 @@ impl FarmSim {
         let owner = receiver.clone().unwrap_or(sender.clone());
         let identifier = id.map(|k| format!("x{k}"));
         let full = identifier.as_ref().map(|i| format!("u-{i}"));
-        let valid = (DAY..=YEAR).contains(&dur)
+        let valid = (self.min_dur..=self.max_dur).contains(&dur)
             && receiver.as_ref().map(|r| *r == sender).unwrap_or(true)
             && full.as_ref().map(|f| !self.l.positions.contains_key(f)).unwrap_or(true)
             && self.l.open_positions_of(owner.as_str()).len() < 10;
@@ -252,7 +252,11 @@ impl FarmSim {
     pub fn op_lock_via_pm(&mut self, user: u8, lp: u8, amount: u64, dur: u64, id: Option<u8>, st: &mut Stats) -> Result<(), String> {
         let sender = self.user(user);
         let k = lp as usize % self.lps.len();
-        self.lock_via_pm(&sender, k, amount, dur, id.map(|i| format!("x{i}")), false, st)
+        // identifiers 6.. look like the generated ones ("p-<n>" with n just above the highest in use):
+        // an explicit identifier lives in its own namespace ("u-…") whatever it looks like
+        let next = self.l.positions.keys().filter_map(|k| k.strip_prefix("p-").and_then(|n| n.parse::<u64>().ok())).max().unwrap_or(0) + 1;
+        let name = id.map(|i| if i < 6 { format!("x{i}") } else { format!("p-{}", next + (i as u64 - 6)) });
+        self.lock_via_pm(&sender, k, amount, dur, name, false, st)
     }
 
     /// `single`: deposit one asset only (the pool manager swaps half and then calls itself)
@@ -272,7 +276,7 @@ impl FarmSim {
         let valid = match &existing {
             Some(p) => p.owner == sender.as_str() && p.open && p.lp == lp,
             None => {
-                (DAY..=YEAR).contains(&dur)
+                (self.min_dur..=self.max_dur).contains(&dur)
                     && id.as_ref().map(|i| !self.l.positions.contains_key(&format!("u-{i}"))).unwrap_or(true)
                     && self.l.open_positions_of(sender.as_str()).len() < 10
             }
@@ -305,6 +309,14 @@ impl FarmSim {
                 }
                 None => {
                     let p = self.new_position_of(sender).ok_or_else(|| format!("[C08] {what}: accepted but no new position is reported"))?;
+                    if let Some(i) = &id {
+                        if p.identifier != format!("u-{i}") && self.mon.c08 {
+                            return Err(format!("[C08] {what}: stored as {} instead of u-{i} (explicit identifiers have their own namespace)", p.identifier));
+                        }
+                        if i.starts_with("p-") {
+                            st.bump("locked deposit: explicit identifier that looks like a generated one");
+                        }
+                    }
                     self.l.positions.insert(
                         p.identifier.clone(),
                         MPos { id: p.identifier.clone(), owner: sender.to_string(), lp: lp.clone(), amount: minted, open: true, dur, expiring_at: None },
